@@ -106,6 +106,8 @@ def run_case(part, case, stats, known):
             labels.add('ambient:-' + 'v' * amb['verbosity'])
         if amb['tz']:
             labels.add('ambient:process-TZ-set')
+        if sys.flags.optimize:
+            labels.add('interpreter:-O')
     except Reject as rej:
         if not stats.frozen:
             stats.rejected[rej.why] += 1
@@ -155,8 +157,12 @@ def run_case(part, case, stats, known):
 
 
 def shard_task(args):
-    """Run one (part, shard) in a worker process."""
-    (pid, part_name, tier, seed, shard, nshards) = args
+    """Run one (part, shard) in a worker process.  mode 'optimized': the
+    shard runs in a child interpreter started with -O (assert statements
+    compiled away - an interpreter option, not an input of any property)."""
+    (pid, part_name, tier, seed, shard, nshards, mode) = args
+    if mode == 'optimized' and not sys.flags.optimize:
+        return optimized_shard(args)
     stats = ShardStats()
     try:
         module = importlib.import_module('vfw.props.' + pid)
@@ -175,6 +181,30 @@ def shard_task(args):
     except Exception:  # pylint: disable=broad-except
         stats.harness_error = traceback.format_exc()
     return (part_name, shard, stats.as_dict())
+
+
+def optimized_shard(args):
+    import subprocess
+    (pid, part_name, _tier, _seed, shard, _n, _mode) = args
+    stats = ShardStats()
+    try:
+        proc = subprocess.run(
+            [sys.executable, '-O', '-m', 'vfw.runner', pid, '--shard-json',
+             json.dumps(list(args))],
+            capture_output=True, text=True, cwd=VERIF_DIR, check=False)
+        lines = [l for l in proc.stdout.splitlines()
+                 if l.startswith('SHARD-RESULT ')]
+        if not lines:
+            stats.harness_error = 'optimized shard gave no result: ' + (
+                proc.stderr[-1500:] or proc.stdout[-500:])
+            return (part_name, shard, stats.as_dict())
+        name, number, result = json.loads(lines[-1][len('SHARD-RESULT '):])
+        if result.get('violation'):
+            result['violation']['interpreter'] = '-O'
+        return (name, number, result)
+    except Exception:  # pylint: disable=broad-except
+        stats.harness_error = traceback.format_exc()
+        return (part_name, shard, stats.as_dict())
 
 
 def run_fuzz(pid, part, seed, shard):
@@ -257,6 +287,20 @@ def replay_file(pid, path, known):
     module = importlib.import_module('vfw.props.' + pid)
     with open(path) as f:
         record = json.load(f)
+    if record.get('interpreter') == '-O' and not sys.flags.optimize:
+        # found in an interpreter started with -O: replay it there
+        import subprocess
+        proc = subprocess.run(
+            [sys.executable, '-O', '-m', 'vfw.runner', pid, '--replay', path],
+            capture_output=True, text=True, cwd=VERIF_DIR, check=False)
+        first = (proc.stdout.splitlines() or [''])[0]
+        if proc.returncode == 1:
+            return ('violation', first.split(': violation ', 1)[-1])
+        if ': rejected' in first:
+            return ('rejected', '')
+        if proc.returncode != 0:
+            raise HarnessError('replay under -O failed: ' + proc.stderr[-800:])
+        return ('ok', '')
     part = next(p for p in module.PARTS if p.name == record['part'])
     try:
         with ambient.applied(record['case']):
@@ -298,8 +342,13 @@ def main(argv=None):
     parser.add_argument('--replay')
     parser.add_argument('--part', action='append')
     parser.add_argument('--no-evidence', action='store_true')
+    parser.add_argument('--shard-json')
     args = parser.parse_args(argv)
     pid = args.property_id
+    if args.shard_json:
+        result = shard_task(tuple(json.loads(args.shard_json)))
+        print('SHARD-RESULT ' + json.dumps(result))
+        return 0
     tier = args.tier if args.tier in ('quick', 'thorough') else 'quick'
     try:
         seed = int(os.environ.get('VERIF_SEED') or '1')
@@ -353,7 +402,15 @@ def main(argv=None):
     for part in parts:
         nshards = part.shards[tier]
         for shard in range(nshards):
-            tasks.append((pid, part.name, tier, seed, shard, nshards))
+            tasks.append((pid, part.name, tier, seed, shard, nshards,
+                          'plain'))
+        if (part.strategy is not None and part.fuzz_of is None
+                and part.enumerate is None and nshards):
+            # the same search once more (twice in the thorough tier) with
+            # other seeds in an interpreter started with -O
+            for extra in range(1 if tier == 'quick' else 2):
+                tasks.append((pid, part.name, tier, seed, nshards + extra,
+                              nshards, 'optimized'))
     results = []
     if tasks:
         workers = min(CORES, len(tasks))
